@@ -90,7 +90,7 @@ NoCrash == [gate |-> "", occ |-> 0, when |-> ""]
 NoPlan == [faults |-> <<>>, crash |-> NoCrash]
 NdInit == [up |-> TRUE, epoch |-> 1, mem |-> <<>>, reg |-> {}, disk |-> <<>>, timers |-> {}, notif |-> {}, wconf |-> {}, wcsv |-> {},
            senders |-> {}, spentout |-> {}, suspfile |-> FALSE, sentn |-> <<>>, nsteps |-> 0, nfaults |-> 0, ncrashes |-> 0,
-           nswaps |-> 0, opens |-> <<>>, q |-> <<>>, peerinv |-> <<>>, keyn |-> 0, ptx |-> 0, ptxs |-> <<>>, ver |-> "current", unrecovered |-> FALSE, tipadd |-> 0, lastplan |-> NoPlan, lastraw |-> <<>>, phase |-> "idle", poll |-> FALSE,
+           nswaps |-> 0, opens |-> <<>>, q |-> <<>>, peerinv |-> <<>>, keyn |-> 0, ptx |-> 0, ptxs |-> <<>>, ver |-> "current", unrecovered |-> FALSE, tipadd |-> 0, lastplan |-> NoPlan, lastraw |-> <<>>, predisk |-> {}, phase |-> "idle", poll |-> FALSE,
            occ |-> <<>>, plan |-> NoPlan, res |-> "ok", recover |-> FALSE, nrestarts |-> 0, a |-> ""]
 
 Ctx(n, plan) == [nd |-> n, evs |-> <<>>, occ |-> <<>>, plan |-> plan, crashed |-> FALSE, go |-> "", sid |-> "none", out |-> "", res |-> "ok", done |-> FALSE]
@@ -282,13 +282,21 @@ InvOK(d, inv) ==
   IF DChain(d) = "btc" THEN inv.cltv <= 504 /\ inv.msat = DClaimSat(d) * 1000
   ELSE inv.cltv >= 0 /\ inv.cltv <= (IF DVer(d) = 7 THEN 29 ELSE 29) /\ inv.msat = DClaimSat(d) * 1000
 
+\* LightningClient.RecoverClaimPayment: a legacy (protocol 6) Liquid swap never starts a claim payment, it only follows one that
+\* exists (waits for an in-flight HTLC to resolve; as harness/l1/ln.go: the outcome "fail" makes the in-flight HTLC fail)
+LegacyRecover(x0, event) ==
+  LET d == D(x0)  g == Gate(x0, "ln.recover") IN IF g.crashed THEN g ELSE
+  IF g.go = "err" THEN Fail(g, "recover legacy claim payment") ELSE
+  LET st == PayStatus(g, d.sid)
+      res == IF st = "inflight" THEN (IF g.go = "fail" THEN "waited_failed" ELSE "waited_settled") ELSE st
+      nst == IF res = "waited_failed" THEN "failed" ELSE IF res = "waited_settled" THEN "succeeded" ELSE st
+      g2 == Emit([g EXCEPT !.nd.peerinv = Put(@, <<d.sid, "status">>, nst)], [ev |-> "ln.recover", sid |-> d.sid, res |-> res])
+  IN IF nst = "succeeded" THEN Out(SetD(g2, [d EXCEPT !.preimage = TRUE]), event) ELSE Fail(g2, "recover legacy claim payment")
+
 ActAwaitTxConfirmation(x) ==
   LET d == D(x) IN
   IF DChain(d) = "lbtc" /\ DVer(d) # 7 THEN
-     (IF d.txhex = "" THEN Fail(x, "claim payments are disabled for legacy swaps") ELSE
-      LET g == Gate(x, "ln.recover") IN IF g.crashed THEN g ELSE
-      IF g.go # "" \/ PayStatus(g, d.sid) # "succeeded" THEN Fail(g, "recover legacy claim payment")
-      ELSE Out(SetD(g, [d EXCEPT !.preimage = TRUE]), "Event_OnTxConfirmed"))
+     (IF d.txhex = "" THEN Fail(x, "claim payments are disabled for legacy swaps") ELSE LegacyRecover(x, "Event_OnTxConfirmed"))
   ELSE
   LET g1 == Gate(x, "ln.decode") IN IF g1.crashed THEN g1 ELSE IF g1.go # "" THEN Fail(g1, "decode") ELSE
   IF ~InvOK(d, d.otb.inv) THEN Fail(g1, "unsafe invoice") ELSE
@@ -336,9 +344,7 @@ ActValidateTxAndPay(x) ==
   IF D(x).preimage THEN Succ(x) ELSE     \* already paid (restart after the payment result was stored): go on claiming, whatever fails now
   LET d == D(x)  g == Gate(x, "validate") IN IF g.crashed THEN g ELSE IF g.go # "" THEN Fail(g, "validator") ELSE
   IF ~TxValidFor(d) THEN Fail(g, "tx is not valid") ELSE
-  IF DChain(d) = "lbtc" /\ DVer(d) # 7 THEN
-     (LET r == Gate(g, "ln.recover") IN IF r.crashed THEN r ELSE
-      IF r.go # "" \/ PayStatus(r, d.sid) # "succeeded" THEN Fail(r, "recover legacy claim payment") ELSE Succ(SetD(r, [d EXCEPT !.preimage = TRUE])))
+  IF DChain(d) = "lbtc" /\ DVer(d) # 7 THEN LegacyRecover(g, "Event_ActionSucceeded")
   ELSE PayLoop(g, 1)
 
 SpendOK(d) == d.txhex \in DOMAIN o.tx /\ o.tx[d.txhex].any_good
@@ -632,8 +638,8 @@ MsgMenu(n) ==
   \cup (IF ADVERSARY THEN UNION {AdvMsgs(n, s) : s \in Labels(n)} \cup (IF n.nswaps < MAXSWAPS THEN AdvNewReqs ELSE {}) \cup (IF cf.junk THEN RawMsgs ELSE {}) ELSE {})
 
 FaultGates == {"msg.send", "chain.height", "ln.payclaim", "ln.payfee", "wallet.open", "wallet.spend.preimage", "wallet.spend.csv",
-               "wallet.spend.coop", "ln.invoice", "validate", "persist", "ln.decode", "ln.probe", "wallet.fee"}
-FaultOutcomes(g) == IF g = "ln.payclaim" THEN {"fail", "err_pending", "err_settled", "fail_adv"} ELSE IF g = "ln.probe" THEN {"fail"} ELSE {"err"}
+               "wallet.spend.coop", "ln.invoice", "validate", "persist", "ln.decode", "ln.probe", "wallet.fee", "ln.recover"}
+FaultOutcomes(g) == IF g = "ln.payclaim" THEN {"fail", "err_pending", "err_settled", "fail_adv"} ELSE IF g = "ln.probe" THEN {"fail"} ELSE IF g = "ln.recover" THEN {"err", "fail"} ELSE {"err"}
 CrashGates == {"persist", "wallet.open", "ln.payclaim", "ln.payfee", "msg.send", "wallet.spend.preimage", "wallet.spend.csv", "ln.invoice", "chain.height"}
 Plans(n) ==
   {NoPlan}
@@ -665,6 +671,8 @@ Commit(x, pre, a, plan, sch) ==
   IN /\ o' = f.o /\ viol' = f.v
      /\ nd' = [y.nd EXCEPT !.phase = "drain", !.lastplan = NoPlan, !.lastraw = IF a = "msg" /\ "msg" \in DOMAIN sch /\ sch.msg.kind = "raw" THEN <<sch.msg.raw_type, sch.msg.raw>> ELSE <<>>,
                            !.occ = y.occ, !.plan = plan, !.res = y.res, !.a = a, !.nsteps = @ + 1,
+                           \* what a recovery does depends on the records it finds: recoveries from different stored states are behaviours of their own (export key)
+                           !.predisk = IF a \in {"restart", "recover"} THEN {<<nd.disk[s].role, nd.disk[s].cur, nd.disk[s].otb>> : s \in DOMAIN nd.disk} ELSE {},
                            !.nfaults = @ + (IF plan.faults # <<>> THEN 1 ELSE 0), !.ncrashes = @ + (IF plan.crash.gate # "" THEN 1 ELSE 0)]
      /\ sched' = Append(sched, sch) /\ UNCHANGED cf
 
@@ -763,6 +771,19 @@ DoRestart ==
                      \o (IF ok THEN rel ELSE <<[ev |-> "stop", why |-> "upgrade refused"]>>)
           IN Commit(Ctx(n0, plan), pre, "restart", plan, StepRec("restart", <<>>, plan))
 
+\* An upgrade from a release that spoke protocol 6: while the node is down, the stored record of a Liquid taker becomes a legacy
+\* record (harness step "downgrade": protocol_version 6 in request / agreement, no persisted anchor flag). Takers only: a maker's
+\* legacy record belongs to an output whose script was built with the legacy CSV, which a rewritten record cannot provide.
+LegacyRec(d) == [d EXCEPT !.in_req = IF IsNone(@) THEN @ ELSE [@ EXCEPT !.ver = 6], !.out_req = IF IsNone(@) THEN @ ELSE [@ EXCEPT !.ver = 6], !.start_set = FALSE]
+DoDowngrade ==
+  /\ Idle /\ Settled /\ cf.legacy /\ CHAIN = "lbtc" /\ \A t \in DOMAIN nd.disk : DVer(nd.disk[t]) # 6
+  /\ \E s \in DOMAIN nd.disk :
+       /\ nd.disk[s].role \in Takers /\ nd.disk[s].cur \notin Terminal /\ nd.disk[s].cur # "" /\ HasReq(nd.disk[s])
+       /\ LET n0 == [Down(nd) EXCEPT !.disk = Put(@, s, LegacyRec(nd.disk[s]))]
+              pre == <<DriveEv("downgrade", [sid |-> s], NoPlan)>> \o (IF nd.up THEN <<[ev |-> "stop", why |-> "shutdown"]>> ELSE <<>>)
+                     \o <<[ev |-> "downgraded", sid |-> s, rec |-> Project(LegacyRec(nd.disk[s]))]>>
+          IN Commit(Ctx(n0, NoPlan), pre, "downgrade", NoPlan, StepRec("downgrade", [sid |-> s], NoPlan))
+
 \* The daemons register the message handler (Start) before RecoverSwaps: messages can arrive in between.
 DoStart ==
   /\ Idle /\ ADVERSARY /\ nd.nrestarts < MAXCRASHES + 1 /\ nd.ver = "current" /\ ~nd.unrecovered
@@ -803,7 +824,7 @@ Drain ==
         /\ UNCHANGED <<sched, cf>>
 
 Init == /\ cf \in CONFIGS /\ o = ApplyEv(ObsInit, [ev |-> "reset", cfg |-> Cfg]) /\ viol = {} /\ nd = [NdInit EXCEPT !.ver = cf.ver] /\ sched = <<>>
-Next == DoLocal \/ DoMsg \/ DoBlock \/ DoPay \/ DoHtlc \/ DoTimer \/ DoRestart \/ DoStart \/ DoRecover \/ Drain
+Next == DoLocal \/ DoMsg \/ DoBlock \/ DoPay \/ DoHtlc \/ DoTimer \/ DoRestart \/ DoStart \/ DoRecover \/ DoDowngrade \/ Drain
 Spec == Init /\ [][Next]_vars
 \* the view hides counters and histories that do not influence future behaviour (BFS reaches each view state first by a shortest path)
 NdView == [nd EXCEPT !.nsteps = 0, !.sentn = <<>>, !.keyn = 0, !.ptx = 0, !.epoch = 0, !.nrestarts = IF @ > MAXCRASHES THEN 1 ELSE 0, !.a = ""]
